@@ -670,10 +670,11 @@ func (l *List) CombineN(sta funcGen.Stack[Value]) (*List, error) {
 		}
 		return NewListFromIterable(func(st funcGen.Stack[Value]) iterator.Producer[Value] {
 			return iterator.CombineN[Value, Value](l.iterable(st), int(n), func(i0 int, i []Value) (Value, error) {
-				// the iterator reuses the slice i for the following groups, so the
-				// list handed to the function needs its own copy of the items
-				items := make([]Value, len(i))
-				copy(items, i)
+				// the iterator reuses the slice i (a ring buffer whose oldest item is at
+				// i0) for the following groups, so the list handed to the function gets
+				// its own copy of the items, in list order
+				items := make([]Value, 0, len(i))
+				items = append(append(items, i[i0:]...), i[:i0]...)
 				st.Push(NewList(items...))
 				return f.Func(st.CreateFrame(1), nil)
 			})
